@@ -41,7 +41,19 @@ def strategy(tier):
             m = draw(S.event_model(limits=False))
         su = draw(S.stochastic_setup(m, x_hi=draw(st.sampled_from([3, 8, 40]))))
         algo = draw(st.sampled_from(["exact", "tau", "pre_tau", "pre_tau"]))
-        return {"model": m, "setup": su, "algo": algo,
+        drift = None
+        if algo != "exact" and draw(st.integers(0, 2)) == 0:
+            # an explicit ODE term that pushes a state towards (and, unchecked, across) one of its limits; given either at
+            # construction or added with add_ode / ode_list after a first simulation on the same object
+            names = ir.state_names(m)
+            lims = ir.state_limits(m)
+            cands = [(nm, -1) for nm, (lo, hi) in zip(names, lims) if lo is not None] + \
+                    [(nm, +1) for nm, (lo, hi) in zip(names, lims) if hi is not None]
+            if cands:
+                nm, sgn = draw(st.sampled_from(cands))
+                drift = {"state": nm, "rate": sgn * draw(st.sampled_from([0.5, 2.0, 8.0])),
+                         "when": draw(st.sampled_from(["construction", "add_ode-after-first-run", "ode_list-after-first-run"]))}
+        return {"model": m, "setup": su, "algo": algo, "drift": drift,
                 "pre_tau": draw(st.sampled_from([0.05, 0.5, 2.0, 10.0])),
                 "epsilon": draw(st.sampled_from([None, 0.01, 0.1, 0.5])),
                 "grid_n": draw(st.sampled_from([0, 0, 4, 7])),
@@ -69,6 +81,9 @@ def oracle(case, rec):
     m, su, algo = case["model"], case["setup"], case["algo"]
     lims = ir.state_limits(m)
     n_e = len(m["events"])
+    drift = case.get("drift")
+    if drift and drift["when"] == "construction":
+        m = dict(m, odes=[{"state": drift["state"], "expr": ir.C(drift["rate"])}])
     model, order = stoch.prepare(m, su)
     exact = algo == "exact"
     model.pre_tau = case["pre_tau"] if algo == "pre_tau" else None
@@ -104,7 +119,25 @@ def oracle(case, rec):
         raise Inconclusive("step budget")
     rejected = buf.getvalue().count("Illegal jump")
     touched = False
-    for X in Xs:
+    runs = list(Xs)
+    if drift:
+        rec.label("drift:" + drift["when"])
+    if drift and drift["when"] != "construction":
+        # second simulation on the same object after an ODE term was added
+        from pygom import Transition
+        tr = Transition(origin=drift["state"], equation=ir.to_str_top(ir.C(drift["rate"])), transition_type="ODE")
+        if drift["when"].startswith("add_ode"):
+            model.add_ode(tr)
+        else:
+            model.ode_list = [tr]
+        try:
+            with contextlib.redirect_stdout(buf):
+                X2, _c2, _t2 = stoch.simulate("C11", key + "/after-add_ode", case, stoch.run_raw, model, t_end, 2, exact,
+                                              (su["np_seed"] + 1) % (2 ** 32))
+        except stoch.StepBudget:
+            raise Inconclusive("step budget")
+        runs += list(X2)
+    for X in runs:
         X = np.asarray(X, float)
         for i, (lo, hi) in enumerate(lims):
             col = X[:, i]
